@@ -4,6 +4,7 @@ import z3
 
 from .values import (V, Int, Str, Bool, SeqV, SeqS, NONE, ABSENT, TRUE, FALSE, mk_bool, mk_int, mk_str,
                      mk_seq, mk_list, mk_tuple, truthy, clsof, keys_of, EMPTY_MAP, EMPTY_SEQ, pystr, py_eq)
+from .values import qforall
 from .state import (St, Unsupported, Static, SFunc, SClass, SBound, SModule, SExt, SConst, SIter, ExcVal)
 
 
@@ -582,7 +583,9 @@ class ExprMixin:
         if x is not None:
             seq = self.seq_of(x, o)
             x, lo, hi = self.slice_bounds(x, sl, z3.Length(seq))
-            sub = z3.SubSeq(seq, lo, z3.If(hi - lo < 0, 0, hi - lo))
+            sub = z3.simplify(z3.SubSeq(seq, lo, z3.If(hi - lo < 0, 0, hi - lo)))
+            sj = z3.Int('sl!j')
+            x.assume(qforall([sj], z3.Implies(z3.And(sj >= 0, sj < z3.Length(sub)), sub[sj] == seq[lo + sj])))
             res = z3.If(V.is_tuple(o), V.tuple(sub), V.list(sub))
             # a list slice is a new list object; immutable value is enough unless it is mutated later
             out.append((x, 'ok', self.new_list(x, sub) if not z3.is_true(z3.simplify(V.is_tuple(o))) else res))
